@@ -9,13 +9,14 @@ from vlib import registry, overlay, kani, runner
 
 def main():
     args = sys.argv[1:]
-    par = 10; scale = 1.0; pats = []
+    par = 10; scale = 1.0; pats = []; excl = None
     i = 0
     while i < len(args):
         if args[i] == "--par": par = int(args[i+1]); i += 2
         elif args[i] == "--scale": scale = float(args[i+1]); i += 2
+        elif args[i] == "--exclude": excl = args[i+1]; i += 2
         else: pats.append(args[i]); i += 1
-    names = [n for n in registry.H if not pats or any(re.search(p, n) for p in pats)]
+    names = [n for n in registry.H if (not pats or any(re.search(p, n) for p in pats)) and not (excl and re.search(excl, n))]
     variants = {}
     for n in names:
         v = registry.H[n].get("variant", "default")
